@@ -4,7 +4,7 @@ use crate::real_std::{
     fmt,
     marker::PhantomData,
     slice,
-    sync::{Arc, Mutex},
+    sync::Arc,
     time::Duration,
 };
 
@@ -451,3 +451,9 @@ pub fn load_thread<'vm>(vm: &'vm Thread) -> VmResult<ExternModule> {
         },
     )
 }
+
+// The locks are the ones of `std` unless the build is instrumented for schedule exploration
+#[cfg(not(gluon_verif))]
+use crate::real_std::sync::Mutex;
+#[cfg(gluon_verif)]
+use crate::verif::sync::Mutex;
